@@ -14,14 +14,13 @@ import common, gen, gen2, lpdump, e1, e1err, errlib, props
 from engines import c07
 
 LEVEL = "proof"
-EXPLANATION = ("Props/C08.v (all closed under the global context): kmpe_enc_sound — every assignment satisfying the generated rows decodes (DAG) to one "
-               "source-to-sink path per layer, weights and slacks in [0,w_max] of the requested type, and for every non-ignored edge "
-               "scale*|f(e) - sum_i w_i x_i(e)| <= sum_i sigma_i x_i(e) where sigma_i is the slack (or the length-scaled slack) of layer i; the LP objective is the sum of the slacks; "
-               "kmpe_factor_sound — with path-length factors sigma_i = slack_i * c_p for a range p containing the encoded length Len_i = sum_e len(e) x_i(e) (C12 piecewise / integer-product theorems through the row bridges); "
-               "kmpe_is_valid_accepts — every satisfying assignment passes the per-edge test of is_valid_solution as the code computes it (scaled error, /repo 43fc741) for every tolerance >= 0; kmpe_is_valid_old_refuted documents the old unscaled test; kmpe_feasible_ge_width — (no length factors, no subpath constraints) any k unit s-t flows covering all non-ignored edges extend, with zero weights and slack max f, to a satisfying assignment, so every k >= width is feasible; "
-               "kmpe_factors_gt1_refuted / kmpe_factors_lt1_refuted — with length factors the bounds of the code (gamma product bound w_max; slack bound w_max and bit width from w_max*max factor) make instances with k >= width infeasible (open findings). "
-               "Optimality is relative to the solver specification (DESIGN §4); completeness beyond the feasibility witness is not proved (C08_full_statement). Cyclic class: E2 only. "
-               "Tie: E1 per instance over the option space; E2 on every answer; exhaustive optimum on tiny instances.")
+EXPLANATION = ("Props/C08.v (12 theorems, all closed under the global context). For the LP without path-length factors and given weights, WITH subpath constraints and length attribute "
+               "(executable premises kmpe_premises_b evaluated per E1 instance): C08_kmpe_feasible_iff_checked (LP satisfiable <=> a choice of k paths, weights, slacks exists), "
+               "C08_kmpe_feasible_ge_width (k paths covering all non-ignored edges => feasible), C08_kmpe_optimal_checked (objective of an optimal satisfying assignment = minimum of the slack sum over "
+               "ALL choices with scale_e*|f(e) - sum_i w_i[e on i]| <= sum_i slack_i[e on i], arbitrary non-negative typed weights/slacks; bound w_max removed by kmpe_clip); parts: kmpe_enc_sound(_checked), "
+               "kmpe_complete. Also kmpe_factor_sound, kmpe_is_valid_accepts (code as it is), kmpe_is_valid_old_refuted; with length factors != 1 feasibility for k >= width is refuted (two open findings). "
+               "Optimality is relative to the solver specification (DESIGN §4). Not proved: given-weights variant, length factors; cyclic class: E2 only. "
+               "Tie: E1 per instance over the option space + per-instance premises check; E2 on every answer; exhaustive / closed-form optimum.")
 ASSUMPTIONS = ["HiGHS status kOptimal => returned assignment satisfies the rows within 1e-9 and is optimal (solver specification, DESIGN §4)",
                "float weights: inequality checked with tolerance 1e-6 per route on an element; integer weights: exact",
                "exhaustive optimum: integer weights in [0, max f], integer slacks, DAGs <= 6 edges, k <= 3 (search space capped, larger cases skipped and counted)"]
@@ -108,6 +107,10 @@ def e1_case(ctx, m, args):
     impl = lpdump.dump_impl(m.solver, e1err.colkey(m, ids))
     req = e1err.request("kmpe", m, ids, args)
     d = e1.compare(ctx, "E1_kMinPathError_LP", "kmpe", m, impl, req, args)
+    try:
+        e1err.theorem_premises(ctx, "E1_kMinPathError_LP", "kmpepremises", m, ids, args)
+    except Exception as e:
+        ctx.report(f"E1_kMinPathError_LP: optimality-premises check crashed: {e!r}", {"engine": "E1_kMinPathError_LP"}, concrete=False)
     if d and ctx.engines.get("E1_kMinPathError_LP", {}).get("disagreements", 0) <= 3:   # keep room for concrete failing inputs
         ctx.report("E1 correspondence broken: LP of kMinPathError differs from ErrEnc.encode_kmpe: " + "; ".join(d[:3]),
                    {"class": "kMinPathError", "args": errlib.describe(args), "diff": d[:12]}, concrete=False)
